@@ -54,7 +54,8 @@ def main():
         return
     schema = build_schema(P["sdl"])
     root = {"a": gamma.make_obj("A", "full"), "d": gamma.make_obj("D", "full"), "u": gamma.make_obj("D", "full"), "version": "1.0",
-            "byId": gamma.make_obj("A", "full", 0, 1)}
+            "byId": gamma.make_obj("A", "full", 0, 1), "byColor": gamma.make_obj("A", "full", 0, 2), "today": "2020-02-03",
+            "dates": ["2020-02-03", "2021-03-04"]}
     last = {}
 
     def handler(request):
@@ -106,7 +107,7 @@ def main():
                 if args == "req":
                     flt = getattr(import_pkg(P["package"] + ".input_types"), "Flt")
                     col = getattr(import_pkg(P["package"] + ".enums"), "Color")
-                    kw = {"c": col.RED, "f": flt(q="abc"), "w": "2020-01-02"}
+                    kw = {"c": col.RED, "f": flt(q="abc")}
                 elif args:
                     flt = getattr(import_pkg(P["package"] + ".input_types"), "Flt")
                     kw = {"id": "x1", "flt": flt(q="abc")}
